@@ -74,7 +74,7 @@ theorem sortKeys_cover :
 /-- every `range` over a map in the module, with the reason it cannot influence output order:
 the two sorted getters (sorted afterwards, see `sorted_output_unique`); RestoreArgumentTypes /
 RestoreFrame / cleanSimpleIdentifires / narrowing (per-key updates of another map: commutative);
-inferArguments / convertArguments / convertDeclarations (side tools, see C25/C26);
+inferArguments (maximum over keys) / convertDeclarations (copy into another map) / sortedKeywordNames (keys collected, then sorted) — side tools, see C25/C26;
 PrintTargetClassExtends (minimum over frames); printAllClasses (set insertion, then sorted; second
 range collects into a slice that is sorted); printInheritanceMap / printMatchingSignatures
 (`--define`, whose records are an unordered set by the property's own statement). -/
@@ -89,9 +89,8 @@ def reviewedMapRanges : List (String × String × Nat) :=
    ("cmd/out.go", "printAllClasses", 2),
    ("cmd/out.go", "printInheritanceMap", 1),
    ("cmd/out.go", "printMatchingSignatures", 1),
-   ("cmd/rbs2json/main.go", "convertArguments", 1),
-   ("cmd/rbs2json/main.go", "convertArguments", 2),
    ("cmd/rbs2json/main.go", "convertDeclarations", 1),
+   ("cmd/rbs2json/main.go", "sortedKeywordNames", 1),
    ("eval/ifunless.go", "narrowing", 1),
    ("main.go", "cleanSimpleIdentifires", 1)]
 
